@@ -21,7 +21,8 @@ Panic sites that are modelled as `Outcome.panic`:
 * `features_len - 1` with `features_len = 0` (debug: overflow check; release: the wrapped
   value is an out-of-range slice end) and `&features_bytes[..features_len - 1]` out of range;
 * `&record_bytes[..record_end_pos]` out of range;
-* `unreachable!()` (OutputFull) and `from_utf8(..).unwrap()` in `parse_csv_row`;
+* `unreachable!()` (OutputFull) and `from_utf8(..).unwrap()` in `parse_csv_row` (the former
+  is dead with the F18 repair `fixed = true`, the latter for every `&str`);
 * `assert_eq!(result, InputEmpty)` after `writer.finish` in `quote_csv_cell`.
 `&bytes[nin..]` is modelled by `List.drop`; `csv-core` guarantees `nin ≤ bytes.len()`
 (`readField_nin_le` in `Proofs/CsvCore.lean`).
@@ -254,32 +255,40 @@ def parseCsv (fixed : Bool) (bytes : List UInt8) : Outcome (List RawEntry) :=
 
 /-! ## `parse_csv_row` -/
 
-/-- The `loop` of `parse_csv_row`; `none` = out of fuel (does not occur). -/
-def rowLoop : Nat → Reader → List UInt8 → List (List UInt8) → Option (Outcome (List (List UInt8)))
+/-- The `loop` of `parse_csv_row` with `cap = output.len()`; `none` = out of fuel (does not
+occur). -/
+def rowLoop (cap : Nat) :
+    Nat → Reader → List UInt8 → List (List UInt8) → Option (Outcome (List (List UInt8)))
   | 0, _, _, _ => none
   | fuel + 1, rdr, bytes, features =>
-    let (result, nin, out, rdr') := readField rdr bytes outCap
+    let (result, nin, out, rdr') := readField rdr bytes cap
     match result with
-    | .outputFull => some .panic          -- `_ => unreachable!()`
+    | .outputFull => some .panic          -- `unreachable!()`
     | .inputEmpty | .end_ =>
       -- `from_utf8(&output[..nout]).unwrap()`
       if validUtf8 out then some (.ok (features ++ [out])) else some .panic
     | .field _ =>
-      if validUtf8 out then rowLoop fuel rdr' (bytes.drop nin) (features ++ [out])
+      if validUtf8 out then rowLoop cap fuel rdr' (bytes.drop nin) (features ++ [out])
       else some .panic
 
+/-- The size of the output buffer of `parse_csv_row`: pinned tree (`fixed = false`)
+`let mut output = [0; 4096];`, repaired tree (finding F18, `fixed = true`)
+`let mut output = vec![0; row.len()];`. -/
+def rowCap (fixed : Bool) (row : List UInt8) : Nat := if fixed then row.length else outCap
+
 /-- `parse_csv_row(row)` on the bytes of `row` (a `&str`, so `validUtf8 row`).  The `none`
-case does not occur (`rowLoop_total` in `Proofs/LexCsv.lean`). -/
-def parseCsvRowBytes (row : List UInt8) : Outcome (List (List UInt8)) :=
-  match rowLoop (parseFuel row) Reader.new row [] with
+case does not occur (`rowLoop_total` in `Proofs/LexCsv.lean`).  With `fixed = true` no panic
+is left for valid UTF-8 rows (`parse_csv_row_total` in `Props/C11.lean`). -/
+def parseCsvRowBytes (fixed : Bool) (row : List UInt8) : Outcome (List (List UInt8)) :=
+  match rowLoop (rowCap fixed row) (parseFuel row) Reader.new row [] with
   | some r => r
   | none => .panic
 
 /-- `parse_csv_row` on Lean strings.  (`String.fromUTF8?` cannot fail here when the model
 says `ok`, since every cell passed `validUtf8`; the `none` case maps to `panic` like the
 `unwrap`.) -/
-def parseCsvRow (row : String) : Outcome (List String) :=
-  match parseCsvRowBytes row.toUTF8.toList with
+def parseCsvRow (fixed : Bool) (row : String) : Outcome (List String) :=
+  match parseCsvRowBytes fixed row.toUTF8.toList with
   | .ok cells =>
     match cells.mapM (fun c => String.fromUTF8? (ByteArray.mk c.toArray)) with
     | some ss => .ok ss
